@@ -49,7 +49,7 @@ PRICE_VECTORS = {
     "depeg": {"DAI": "1.03", "USDC": "0.985"},
     "crash": {"WETH": "0.55", "WBTC": "0.6", "AAVE": "0.5"},
 }
-QUICK_S = ["weth", "weth+usdc", "weth+usdtN", "three", "wbtc", "onlyN"]
+QUICK_S = ["weth", "weth+usdc", "weth+usdtN", "three", "wbtc", "onlyN", "usdc+wethN"]
 QUICK_D = ["none", "usdc-low", "usdc-high", "usdc+dai", "weth-debt"]
 QUICK_P = ["same", "weth-10%", "depeg"]
 FACTORS = [("in", Fraction(999, 1000)), ("in6", 1 - Fraction(1, 10**6)), ("out6", 1 + Fraction(1, 10**6)),
